@@ -207,10 +207,12 @@ def _segment(buf, b, e, what, strict=True):
     return buf[b:b + have], need - have   # missing = 0 or 1
 
 
-def refread(buf):
-    """Strict, independent reading of a whole file.  Raises RefError when the file is not a
+def refread(buf, tolerant=False):
+    """Strict, independent reading of a whole file (tolerant=True: TEXT-like segments with the one tolerated ill-formed ending
+    are read as a reader announcing it with a warning may read them).  Raises RefError when the file is not a
     well-formed list-mode file of a supported layout whose declared sizes match the bytes
     present (one-past end convention tolerated)."""
+    _parse = textref.parse_tolerant if tolerant else textref.parse
     if len(buf) < 58:
         raise RefError('HEADER cut short')
     version = buf[:10].decode('latin-1').rstrip()
@@ -224,7 +226,7 @@ def refread(buf):
         raise RefError('empty TEXT')
     d = traw[0]
     try:
-        text = textref.parse(traw, d)
+        text = _parse(traw, d)
     except textref.Reject as e:
         raise RefError('TEXT rejected: %s' % e)
     v3 = version in ('FCS3.0', 'FCS3.1')
@@ -238,7 +240,7 @@ def refread(buf):
         if sb and se:
             sraw, _ = _segment(buf, sb, se, 'STEXT')
             try:
-                text.update(textref.parse(sraw.decode('latin-1'), d, True))
+                text.update(_parse(sraw.decode('latin-1'), d, True))
             except textref.Reject as e:
                 raise RefError('STEXT rejected: %s' % e)
     if req('$MODE') != 'L':
@@ -269,7 +271,7 @@ def refread(buf):
     if ab and ae:
         try:
             araw, _ = _segment(buf, ab, ae, 'ANALYSIS')
-            analysis = textref.parse(araw.decode('latin-1'), d, True)
+            analysis = _parse(araw.decode('latin-1'), d, True)
             analysis_status = 'ok'
         except (RefError, textref.Reject):
             analysis, analysis_status = {}, 'unparseable'
